@@ -82,8 +82,9 @@ def run_sharded(binpath, cfg, progs, timeout, shards):
 
 def split_trace(tr):
     lines = json.loads(tr)
-    weak = [x for x in lines if x.startswith("W:") or x.startswith("F:")]
-    rest = [x for x in lines if not (x.startswith("W:") or x.startswith("F:"))]
+    isweak = lambda x: x.startswith("W:") or x.startswith("F:") or x.startswith("F!:")
+    weak = [x for x in lines if isweak(x)]
+    rest = [x for x in lines if not isweak(x)]
     return rest, weak
 
 
@@ -94,7 +95,7 @@ def weak_unsound(weak):
     for w in weak:
         if w.startswith("W:S") and w.endswith(":dead"):
             bad.append("weak reference to a strongly held target reported dead: " + w)
-        if w.startswith("F:"):
+        if w.startswith("F:") and not w.startswith("F!:"):
             seen[w] = seen.get(w, 0) + 1
             if w.startswith("F:S"):
                 bad.append("finalization callback for a strongly held target: " + w)
@@ -162,6 +163,12 @@ def main():
         text, ft = c10_gen.gen_program(run.rng, size=size, depth=run.rng.choice([1, 2, 3]))
         progs.append(("g%d" % i, text))
         sizes.append(len(text))
+        for k, v in ft.items():
+            feats[k] = feats.get(k, 0) + v
+    # FinalizationRegistry clean-up callbacks that throw (stand-alone programs; see gen_fr_throw_program)
+    for i in range(16 if quick else 120):
+        text, ft = c10_gen.gen_fr_throw_program(run.rng)
+        progs.append(("f%d" % i, text))
         for k, v in ft.items():
             feats[k] = feats.get(k, 0) + v
     # second stream: programs of the shared C01 grammar (preset C10: closures, generators, classes, destructuring,
